@@ -32,17 +32,17 @@ def crc_step_exhaustive(tmp, tier, seed, goenv):
 
 
 PROP = {
-    "coq": ["C06", "C06b"],
+    "coq": ["C06", "C06b", "C06c"],
     "extra": [crc_step_exhaustive],
     "exhaustive": True,
     "rule": "CRC: the complete one-byte transition function (2^24 pairs) is compared exhaustively; whole-string, "
             "chunked and acceptance-test entry points on structured and random strings of length 0..300. Client level (scenario rtuflip): valid RTU replies of random valid requests under single-bit flips (all for frames <= 16 bytes, strided above), 24 random bit pairs, 16 random bursts <= 16 bits, 4 random CRC fields, plus the crafted F8 family; each followed by a clean exchange; P = first call not a success and second call a success."
-            " Scenario rtufliptail (real deadlines): the reply with its byte count flipped 04->00 is rejected after 5 bytes, its tail arrives 10 ms after the request (inside the 256-character quiet period at 19200 bps); the next exchange must succeed.",
+            " Scenario rtufliptail (real deadlines): the reply with its byte count flipped 04->00 is rejected after 5 bytes, its tail arrives 10 ms after the request (inside the 256-character quiet period at 19200 bps); the next exchange must succeed. Scenario rtusess (real deadlines, 9600/19200 bps): three kinds of single-bit corruption that make the client reject the reply before all of its bytes are there (byte count -> 0, unknown function code, exception bit); the tail arrives 5 ms .. (quiet period - 50 ms) after the client took the head off the line, or only after call 1 returned (control); oracle: the extracted timed session model tm_rtu_session on the nominal schedule.",
     "assumptions": [],
 }
 
 CLAIM = {
-  "text": "Coq theorems: table-driven checksum = bit-serial CRC-16/MODBUS for every byte string; chunk independence; GF(2) linearity; acceptance iff trailer = CRC; every single-bit error, burst <= 16 bits (any length) and double-bit error (frames <= 256 bytes) has non-zero syndrome; every frame sent ends with that CRC; for EVERY request, valid reply and such corruption (followed by anything) the client call is not a success, whatever length the corrupted bytes make the receiver infer (c06_never_success); a mismatching CRC field is a bad-CRC error; after a rejection that triggers the resync flush the next exchange succeeds (c06_recovery). The unconditional recovery clause is refuted in Coq for the code as it is (c06_recovery_refuted = known finding F8). The complete 2^24-entry step function of the real code and corrupted-reply/clean-exchange pairs on the real RTU client are compared with the model on every run.",
+  "text": "Coq theorems: table-driven checksum = bit-serial CRC-16/MODBUS for every byte string; chunk independence; GF(2) linearity; acceptance iff trailer = CRC; every single-bit error, burst <= 16 bits (any length) and double-bit error (frames <= 256 bytes) has non-zero syndrome; every frame sent ends with that CRC; for EVERY request, valid reply and such corruption (followed by anything) the client call is not a success, whatever length the corrupted bytes make the receiver infer (c06_never_success); a mismatching CRC field is a bad-CRC error; after a rejection that triggers the resync flush the next exchange succeeds (c06_recovery), also in time: on timed peer streams everything that arrives until the end of the flush window (256 character times of silence + 500 us after the rejection) is discarded, what arrives later is left alone, and a two-call session recovers (c06_timed_flush, c06_timed_flush_any_link, c06_timed_recovery over Model/TimedSession.v). The unconditional recovery clause is refuted in Coq for the code as it is (c06_recovery_refuted = known finding F8). The complete 2^24-entry step function of the real code and corrupted-reply/clean-exchange pairs on the real RTU client are compared with the model on every run.",
   "note": "Finite facts are vm_compute sweeps over proved-complete enumerators (2^8, 2^16, 2^19, 64x255). F8 (next exchange fails after a corrupted reply whose prefix parses as a complete CRC-valid frame) is a recorded known finding, reported as KNOWN-FINDING, identified by the model-side tag for that input family. Trusted: kernel VM, extraction, harness, scripted connection, VerifCRC* hooks.",
   "technique": "Coq proof (finite sweeps lifted by forallb_forall, linearity, soundness of the RTU client) + exhaustive differential correspondence of the CRC step function + corrupted-reply correspondence",
 }
